@@ -137,6 +137,18 @@ func runOne(dir string, sc scenario, ch sched.Chooser) runOut {
 			}
 		})
 	}
+	// the flock calls do not go through the vfs: the lock code's own yield sites
+	// (dirlock.before-flock / dirlock.before-unlock) park the calling contender.
+	utils.VerifSetYield(func(site string) {
+		if !strings.HasPrefix(site, "dirlock.") {
+			return
+		}
+		if w := r.Current(); w != nil {
+			r.Yield("dl." + strings.TrimPrefix(site, "dirlock.before-"))
+			logs[w.ID] = append(logs[w.ID], ev{W: w.ID, Seq: ctr.Add(1), Kind: strings.TrimPrefix(site, "dirlock.before-")})
+		}
+	})
+	defer utils.VerifSetYield(nil)
 	out.res = r.Execute()
 	for _, l := range logs {
 		out.evs = append(out.evs, l...)
@@ -383,6 +395,12 @@ func procMain(args []string) int {
 		}
 		return nil
 	})
+	utils.VerifSetYield(func(site string) {
+		if strings.HasPrefix(site, "dirlock.") {
+			nap()
+			log(ev{Kind: strings.TrimPrefix(site, "dirlock.before-")})
+		}
+	})
 	for round := 0; round < rounds; round++ {
 		nap()
 		var release func() error
@@ -548,7 +566,7 @@ func init() {
 	core.Register(&core.Check{
 		ID:    "C33",
 		Level: "exploration",
-		Rule: "one case = 2-3 in-process contenders x 2-3 rounds of AcquireDirLock/hold/Release on one directory, each through its own vfs.FaultFS whose hook parks before open/close/remove/stat of LOCK; " +
+		Rule: "one case = 2-3 in-process contenders x 2-3 rounds of AcquireDirLock/hold/Release on one directory, each through its own vfs.FaultFS whose hook parks before open/close/remove/stat of LOCK, plus the lock code's own yield sites before its two flock calls; " +
 			"quick 64 cases x 30 PCT(depth 1-3)/random schedules of the token-passing scheduler; thorough 128 x 150, plus bounded-preemption DFS (<=3 preemptions, <=6000 runs) on 16 small scripts, plus 24 runs of 3 real processes " +
 			"(AcquireDirLock loops, every 4th run full NoKV.Open/Close) with seeded sleeps at the same points and a shared-memory holder counter; evaluations = executed schedules; " +
 			"distinct/non-trivial = distinct executed (contender,site) sequences in which a contender was refused or the lock changed hands",
